@@ -47,7 +47,6 @@ use verif_harness::rng::Rng;
 use verif_harness::world::*;
 
 // ---------------------------------------------------------------- known classes
-const K_ISSUANCE: &str = "type-issuance-pool";
 
 type Rt = tokio::runtime::Runtime;
 fn bo<F: Future>(rt: &Rt, f: F) -> F::Output {
@@ -1412,7 +1411,11 @@ impl Rig {
             Some(t) => !gt_solves(&t.data, &tip),
             None => false,
         };
-        let pool_has_issuance = pool_types.contains("TIssuance");
+        if pool_types.contains("TIssuance") {
+            // fix 716c212: the intake takes Issuance-typed transactions only while there is no chain
+            self.stat("pool-holds-issuance-on-running-chain");
+            findings.push((format!("an Issuance-typed transaction is pooled on a running chain (tip {})", tip.id), None));
+        }
         let staked = gp.saturating_mul(tip.avg_nolan_rebroadcast_per_block);
         let multiplier = if staked > 0 { 1 + tip.treasury / staked } else { 1 };
         let src = self.rebroadcast_source();
@@ -1524,9 +1527,6 @@ impl Rig {
                     skip_model = true;
                     let what = format!("the ConsensusThread produced a block on tip {} and rejected it itself (the block is not observable)", tip.id);
                     let mut causes: Vec<&'static str> = vec![];
-                    if pool_has_issuance {
-                        causes.push(K_ISSUANCE);
-                    }
                     if causes.is_empty() {
                         findings.push((what, None));
                     } else {
@@ -1867,9 +1867,6 @@ impl Rig {
                 let n_atr = atr_ids.len();
                 let mut causes: Vec<&'static str> = vec![];
 
-                if pool_has_issuance && fin.id > 1 {
-                    causes.push(K_ISSUANCE);
-                }
 
                 if let Some(sig) = self.injected_aged {
                     let carried = fin.transactions.iter().any(|t| t.signature == sig);
@@ -2647,7 +2644,7 @@ fn main() {
     }
     let header = "From Saito Require Import Base BurnFee Producer.\n\
         Definition check (c : list rcase * list vcase) : bool := check_scenario BurnFee.work_needed c.";
-    let files = gal::write_shards(&format!("{}/cases", args.out), "C07", header, "list rcase * list vcase", &coq_cases, args.shards).unwrap();
+    let files = gal::write_shards(&format!("{}/cases", args.out), "C07", header, "list rcase * list vcase", &coq_cases, std::cmp::max(args.shards, (coq_cases.len() + 39) / 40)).unwrap();
     summary.case_files = files;
     summary.write(&args.out);
 }
